@@ -592,6 +592,21 @@ EVALBLOCK_C16 = ["EvalBlock." + n for n in [
     "block_CallsAtMost", "block_calls_lower", "not_AlgsCallsAtMost_algs", "leaf_calls_le_pow_block_leaf_trees",
     "block_child_input_depends_on_input"]]
 
+EVALFLEX_MODULES = ["TaffyVerif.Props.EvalFlex"]
+EVALFLEX_C05 = ["EvalFlex." + n for n in [
+    "flex_PHZ", "flex_HiddenBlind", "algs_PHZ_flex", "algs_HiddenBlind_flex", "eval_block_flex_leaf_trees",
+    "hidden_zero_block_flex_leaf_trees", "hidden_zero_pass_block_flex_leaf_trees",
+    "hidden_invisible_block_flex_leaf_trees", "hidden_invisible_pass_block_flex_leaf_trees",
+    "hidden_invisible_replace_block_flex_leaf_trees",
+    "computePreliminary_eq", "Meas_flexPrefix", "idxs_collectFlexLines", "Lays_finalLayoutPass", "NoGrid_agree"]]
+EVALFLEX_C01 = ["EvalFlex." + n for n in [
+    "flex_PLCovers", "algs_PLCovers_flex", "single_pass_layouts_quiet_block_flex_leaf_trees",
+    "history_layouts_quiet_block_flex_leaf_trees", "exQ_quiet", "block_in_flex_not_quiet",
+    "Track_computeFlexboxLayout", "algsCovF_PLCovers", "NoGridHist_agree"]]
+EVALFLEX_C16 = ["EvalFlex." + n for n in [
+    "flex_CallsAtMost", "flex_CallsAtMost_fine", "flex_calls_tight", "leaf_calls_le_pow_block_flex_leaf_trees",
+    "algsFanF_callsAtMost", "FanNoGrid_agree"]]
+
 _PAIRS_TRUSTED = [
     "the whole-tree clause is NOT a theorem here: it is checked by sampling tree pairs on the real implementation "
     "(fresh TaffyTree, rounding disabled, harness measure function treegen::measure); the predicate is evaluated twice, "
@@ -603,7 +618,7 @@ _PAIRS_TRUSTED = [
 ]
 
 PROPS["C01"] = {
-    "modules": C01_EVAL_MODULES + EVALBLOCK_MODULES + ["TaffyVerif.Props.C15", "TaffyVerif.Props.C15Pass"], "theorems": C01_EVAL_THEOREMS + EVALBLOCK_C01 + ["C15.step_preserves_K", "C15.I_reachable", "C15Pass.pass_cleans"],  # PLACEHOLDER — C01's theorems (stamp_valid, transparency under HitAfterQuiet, …) to be added
+    "modules": C01_EVAL_MODULES + EVALBLOCK_MODULES + EVALFLEX_MODULES + ["TaffyVerif.Props.C15", "TaffyVerif.Props.C15Pass"], "theorems": C01_EVAL_THEOREMS + EVALBLOCK_C01 + EVALFLEX_C01 + ["C15.step_preserves_K", "C15.I_reachable", "C15Pass.pass_cleans"],  # PLACEHOLDER — C01's theorems (stamp_valid, transparency under HitAfterQuiet, …) to be added
     "harness": "C01", "driver": "C01", "monitor": False, "extra_ties": [("EVAL", "EVAL"), ("FLEX", "FLEX")], "extra_tie_cases": 4000, "harness_timeout": 900,
     "rule": "random histories (5-25 ops) on ONE long-lived TaffyTree<Ctx> next to a mirror description: set_style (fresh / identical / "
             "display:none toggle), set_node_context, add_child / insert_child_at_index / replace_child_at_index with a newly generated or a "
@@ -630,11 +645,11 @@ PROPS["C01"] = {
     "level_text": "Theorems over the tree-level evaluator (Model/Eval.lean, every dispatch, every algorithm bundle): the OUTPUT of a node is a pure function of its subtree and input (outFresh); an exact (full-input) memo whose entries agree with outFresh returns outFresh and stays valid (outputs_transparent_exact); edits that replace a subtree and clear the memos on the path to the root — what the mutators plus mark_dirty achieve, by C15's invariant — preserve validity, so after ANY history of edits and passes the output for the root equals the output of a cache-free pass over a freshly built tree (history_independent_outputs_exact). For the stored LAYOUTS the statement is false in general: layouts_not_transparent_witness is a machine-checked counterexample in which every program has the shape '(ComputeSize)* then PerformLayout per child' (a ComputeSize evaluation rewrites descendants between a PerformLayout store and a later hit), and the same scenario was then reproduced on the real code (known finding c01-stale-layout-after-compute-size). Under the trace condition QuietRun (no body evaluation of a node between a PerformLayout store and a hit on it) and PLCovers, layouts after any quiet history equal those of a fresh cache-free pass; PLCovers is proved for the block model, so on trees of block containers and leaves the theorem needs QuietRun only. On the real code: random histories of every mutator interleaved with passes on any root are compared with a freshly built tree, in four cache modes (real, real+quiet hits, exact keys, exact+quiet), every discrepancy is attributed by the mode that removes it, and a cache-conformance oracle checks every hit of the real trace against cache.rs' rule.",
     "level_note": 'partial: equality of stored layouts under the real nine-slot cache is NOT a theorem (it is false: known findings lossy key, stale layouts after a ComputeSize evaluation, attach under a clean hidden node); with exact keys it is proved under QuietRun/PLCovers, which hold for block and are hypotheses for flex/grid. Axioms: propext, Classical.choice, Quot.sound.',
     "technique": 'Lean 4 refinement proof (exact memo vs cache-free evaluator, edits, histories) + counterexample + differential histories against fresh trees in four cache modes',
-    "undischarged": ['PLCovers for flex and grid programs; QuietRun is a trace condition (monitored on the implementation through the quiet-hit cache mode)', 'real-cache layout transparency: false (three known findings)'],
+    "undischarged": ['PLCovers for the grid program (proved for block: EvalBlock.block_PLCovers, and flexbox: EvalFlex.flex_PLCovers; unconditional on NoGrid trees); QuietRun is a trace condition (monitored on the implementation through the quiet-hit cache mode)', 'real-cache layout transparency: false (three known findings)'],
 }
 
 PROPS["C16"] = {
-    "modules": C16_EVAL_MODULES + EVALBLOCK_MODULES, "theorems": C16_EVAL_THEOREMS + EVALBLOCK_C16,  # PLACEHOLDER — C16's theorems (body_evals_le_distinct_keys, queries_per_invocation, chain_const) to be added
+    "modules": C16_EVAL_MODULES + EVALBLOCK_MODULES + EVALFLEX_MODULES, "theorems": C16_EVAL_THEOREMS + EVALBLOCK_C16 + EVALFLEX_C16,  # PLACEHOLDER — C16's theorems (body_evals_le_distinct_keys, queries_per_invocation, chain_const) to be added
     "harness": "C16", "driver": "C16", "monitor": False, "harness_timeout": 900, "extra_ties": [("EVAL", "EVAL"), ("FLEX", "FLEX")], "extra_tie_cases": 4000,
     "rule": "fresh trees, one compute_layout pass each: (i) 3000 random mixes (all displays, hidden/absolute nodes, Fixed and Wrap leaves) with "
             "up to 40/150/300 nodes, depth up to 12, up to 10 children; (ii) single-child chain families (same level styles cycled, depth "
@@ -658,7 +673,7 @@ PROPS["C16"] = {
 }
 
 PROPS["C17"] = {
-    "modules": C17_MODULES, "theorems": C17_THEOREMS,  # PLACEHOLDER — C17's theorems (dispatch_eq, drivers_eq) to be added
+    "modules": C17_MODULES + EVALFLEX_MODULES, "theorems": C17_THEOREMS + EVALFLEX_C01,  # PLACEHOLDER — C17's theorems (dispatch_eq, drivers_eq) to be added
     "harness": "C17", "driver": "C17", "monitor": False, "extra_ties": [("EVAL", "EVAL"), ("FLEX", "FLEX")], "extra_tie_cases": 4000, "harness_timeout": 900,
     "rule": "12 000 generated trees (full observation lines for the first 4000 and for every differing case) (60% up to 12 nodes / depth 3, 40% up to 40 nodes / depth 6; flex/grid/block/none, Fixed/Wrap/no measure "
             "data), random available space, rounding on or off. Each is laid out by TaffyTree::compute_layout_with_measure and by an "
@@ -740,7 +755,7 @@ PROPS["C12"] = {
 }
 
 PROPS["C05"] = {
-    "modules": C05_EVAL_MODULES + C17_MODULES + EVALBLOCK_MODULES, "theorems": C05_EVAL_THEOREMS + ["C17.dispatch_eq"] + EVALBLOCK_C05,
+    "modules": C05_EVAL_MODULES + C17_MODULES + EVALBLOCK_MODULES + EVALFLEX_MODULES, "theorems": C05_EVAL_THEOREMS + ["C17.dispatch_eq"] + EVALBLOCK_C05 + EVALFLEX_C05,
     "harness": "C05", "driver": "C05", "monitor": False, "extra_ties": [("EVAL", "EVAL"), ("FLEX", "FLEX")], "extra_tie_cases": 4000,
     "rule": "style trees of 2-12 nodes as for C04, with 1-3 extra non-root nodes forced to display:none (keeping their subtrees, "
             "half of them with explicit grid-row/grid-column lines -5..6 / spans, some absolute, some with sizes and margins); for "
@@ -754,9 +769,9 @@ PROPS["C05"] = {
     "assumptions": ["a display:none root is outside the quantifier: compute_root_layout writes the root's style padding/border/"
                     "margin into its layout (size and location stay 0); see the note in the evidence"],
     "level_text": "Theorems over the tree-level evaluator (Model/Eval.lean: compute_child_layout + compute_cached_layout + compute_hidden_layout, any cache implementation, dispatch arms extracted from the source), for every tree, state, input and fuel: hiddenLayout zeroes every layout and clears every cache of the subtree; the invariant 'every display:none child of a box-generating node has an all-zero own layout and everything strictly below a display:none node is all-zero' holds on a fresh tree and is preserved by every evaluation provided the container algorithms only write zero layouts to hidden children (AlgsPHZ); and if the container algorithms' programs do not depend on a hidden child's style beyond display:none (HiddenBlind), replacing a hidden subtree by any other hidden subtree (a bare leaf) yields equal outputs and equal layouts/caches everywhere outside hidden subtrees. On the real code both clauses are checked on generated tree pairs (flex, grid, block parents; hidden nodes with grid lines).",
-    "level_note": 'partial: AlgsPHZ and HiddenBlind are named hypotheses about the container algorithms; they are PROVED for the block model (EvalBlock.block_PHZ, block_HiddenBlind), so on trees whose containers are all block (BlockOnly) both clauses hold unconditionally (…_block_leaf_trees theorems); for flex and grid they remain hypotheses validated by the tree-pair run on the implementation. Trusted: Lean kernel; Eval model (tied by the EVAL correspondence on leaf/block trees); extractor for the dispatch arms. Axioms: propext, Classical.choice, Quot.sound.',
+    "level_note": 'partial: AlgsPHZ and HiddenBlind are named hypotheses about the container algorithms; they are PROVED for the block model (EvalBlock.block_PHZ, block_HiddenBlind) and for the flexbox model (EvalFlex.flex_PHZ, flex_HiddenBlind; Model/Flex.lean, tied by the FLEX correspondence), so on trees whose containers are all block or flexbox (EvalFlex.NoGrid) both clauses hold unconditionally (…_block_flex_leaf_trees theorems); for grid they remain hypotheses validated by the tree-pair run on the implementation. Trusted: Lean kernel; Eval model (tied by the EVAL correspondence on leaf/block trees); extractor for the dispatch arms. Axioms: propext, Classical.choice, Quot.sound.',
     "technique": 'Lean 4 simulation proof over the interaction-program evaluator + metamorphic tree pairs on the real TaffyTree',
-    "undischarged": ['AlgsPHZ / HiddenBlind for flexbox.rs and grid (unmodelled as programs): sampled by the tree pairs only'],
+    "undischarged": ['AlgsPHZ / HiddenBlind for grid (unmodelled as a program): sampled by the tree pairs only'],
 }
 
 PROPS["C06"] = {
